@@ -81,7 +81,7 @@ pub fn ep_file(b: &Board) -> Option<u8> {
     b.verif_en_passant_file()
 }
 
-#[cfg(any())]
+#[cfg(rce_verif)]
 pub fn remembered(b: &Board) -> Vec<u64> {
     let mut v: Vec<u64> = b.verif_remembered_keys().into_iter().map(key_u64).collect();
     v.sort_unstable();
